@@ -28,12 +28,14 @@ ACTIONS = ['connect-hold', 'connect-hold', 'connect-refused',
            'connect-midframe', 'status', 'disconnect', 'disconnect',
            'disconnect-immediate', 'double-disconnect', 'disconnect-other-'
            'thread', 'reconnect-listener', 'reconnect-exc-handler',
-           'reconnect-exit-callback', 'cancel-reconnect-listener']
+           'reconnect-exit-callback', 'cancel-reconnect-listener',
+           'stall-then-disconnect']
 
 
 class Harness(object):
-    def __init__(self, pv):
+    def __init__(self, pv, encrypted=False):
         self.pv = pv
+        self.encrypted = encrypted
         self.codec = codec_for(pv)
         self.next_mode = 'hold'
         self.ka = 5000
@@ -73,7 +75,20 @@ class Harness(object):
             io.phase = 'done'
             self._await_eof(io)
             return
-        scripts.login_offline(io, pv, None, codec)
+        scripts.login_offline(io, pv, None, codec, encrypted=self.encrypted)
+        if mode == 'stall':
+            # a hung server: the beginning of a frame, then silence - it does
+            # not even react to the client's end-of-stream
+            kid, kp = codec.encode('cb_keep_alive', {'id': 1})
+            data = io.encode_frame(kid, kp)
+            io.send_raw(data[:len(data) - 3])
+            io.phase = 'stalled'
+            try:
+                io.cmds.get(timeout=20.0)
+            except queue.Empty:
+                pass
+            io.phase = 'done'
+            return
         if mode == 'play-disconnect':
             did, dp = codec.encode('play_disconnect', {'reason': '"bye"'})
             io.send_frame(did, dp)
@@ -264,14 +279,14 @@ def compact_trace(log, upto, n=40):
     return out
 
 
-def history_case(run, rng, pv, actions, idx):
+def history_case(run, rng, pv, actions, idx, encrypted=False):
     from minecraft.exceptions import InvalidState
     from minecraft.networking import connection as C
     from minecraft.networking.packets import clientbound
-    H = Harness(pv)
+    H = Harness(pv, encrypted)
     rec = pc.Recorder()
     hooks = {'exit': None, 'exc': None}
-    w = {'pv': pv, 'history': list(actions)}
+    w = {'pv': pv, 'history': list(actions), 'encrypted_sessions': encrypted}
     conn = None
     try:
         K = pc.monitored_connection_class()
@@ -477,6 +492,49 @@ def history_case(run, rng, pv, actions, idx):
                 else:
                     run.count('disconnects_of_idle')
                 state = 'idle'
+            elif action == 'stall-then-disconnect':
+                if state != 'idle':
+                    continue
+                H.next_mode = 'stall'
+                try:
+                    conn.connect()
+                except Exception as e:
+                    bad('idle/connect-raised', 'connect() on an idle '
+                        'connection raised', raised=repr(e))
+                    return None
+                if not pc.wait_for(lambda: len(H.ios) > n_ios and getattr(
+                        H.ios[-1], 'phase', '') == 'stalled', 10.0):
+                    return 'stall never reached'
+                stalled = H.ios[-1]
+                time.sleep(0.05)     # the client is now blocked mid-frame
+                errs = []
+                imm = rng.random() < 0.5
+
+                def call():
+                    try:
+                        conn.disconnect(immediate=imm)
+                    except BaseException as e:
+                        errs.append(e)
+                t = threading.Thread(target=call, name='user-b')
+                t.start()
+                t.join(6.0)
+                hung = t.is_alive()
+                done = not hung and pc.wait_idle(conn, 6.0)
+                stalled.cmds.put(('stop',))
+                if errs:
+                    bad('disconnect-raised/stalled/%s' % type(errs[0]).__name__,
+                        'disconnect() raised', error=repr(errs[0]))
+                    return None
+                if not done:
+                    bad('disconnect/thread-alive', 'networking thread (blocked'
+                        ' in the middle of a frame from a silent server) did '
+                        'not terminate after disconnect()', immediate=imm,
+                        disconnect_call_hung=hung)
+                    pc.wait_idle(conn, 10.0)
+                    return None
+                H.next_mode = 'hold'
+                state = 'idle'
+                run.count('disconnects_of_stalled')
             elif action == 'cancel-reconnect-listener':
                 if state != 'active':
                     continue
@@ -935,7 +993,7 @@ def stress_case(run, rng, pv, idx):
 def run(run):
     thorough = run.tier == 'thorough'
     run.level = 'exploration'
-    run.rule = ('call histories of length <= %d over 15 actions (connect '
+    run.rule = ('call histories of length <= %d over 16 actions (connect '
                 'against 5 server behaviours, status, 4 disconnect forms, 3 '
                 'reconnect-from-callback forms), all length-1 and length-2 '
                 'histories exhaustively plus seeded longer ones, each executed'
@@ -947,21 +1005,29 @@ def run(run):
                        'legitimate outcomes of racing calls']
     rng = run.rng('c16')
     acts = sorted(set(ACTIONS))
-    plan = [(a,) for a in acts] + [(a, b) for a in acts for b in acts]
+    plan = [((a,), False) for a in acts] + \
+        [((a, b), False) for a in acts for b in acts]
+    # the same pairs after a session that switched on encryption (the
+    # transport is then wrapped; the wrappers outlive the session)
+    plan += [((a, b), True) for a in acts for b in acts
+             if a.startswith(('connect-', 'reconnect-', 'stall'))]
     maxlen = 6 if thorough else 4
     for _ in range(3000 if thorough else 90):
-        plan.append(tuple(rng.choice(ACTIONS)
-                          for _ in range(rng.randrange(3, maxlen + 1))))
-    for i, actions in enumerate(plan):
+        plan.append((tuple(rng.choice(ACTIONS)
+                           for _ in range(rng.randrange(3, maxlen + 1))),
+                     rng.random() < 0.3))
+    for i, (actions, encrypted) in enumerate(plan):
         if not run.mine(i):
             continue
         pv = rng.choice((757, 757, 404, 340, 47))
         err = None
         for attempt in range(3):
-            err = history_case(run, rng, pv, actions, i)
+            err = history_case(run, rng, pv, actions, i, encrypted)
             if err is None:
                 break
-        run.case(('hist', actions))
+        if encrypted:
+            run.count('histories_with_encrypted_sessions')
+        run.case(('hist', actions, encrypted))
         if err:
             run.inconclusive_because('history %r: %s' % (actions, err))
         elif len(run.samples) < 3 and len(actions) >= 3:
@@ -1022,3 +1088,5 @@ def run(run):
     run.require('check_vs_lock_cases', 2)
     run.require('stale_read_cases', 2)
     run.require('final_reuse_probes', 20)
+    run.require('disconnects_of_stalled', 3)
+    run.require('histories_with_encrypted_sessions', 10)
